@@ -1,6 +1,7 @@
 package rsm
 
 import (
+	"github.com/lni/dragonboat/v4/internal/utils/dio"
 	"io"
 	"os"
 	"time"
@@ -273,5 +274,65 @@ func VHarness_C14_Shrink() {
 	check("ss", "replaced-")
 	_, still := fs.files["ss.shrunk"]
 	vAssert(!still, "temporary-file-gone")
+	vReach("done")
+}
+
+// C14 (compression, read sizes): the writer / reader chains are the ones
+// snapshotter.Save and snapshotter.Load build (counted writer + optional
+// Snappy stream compressor over the snapshot writer; optional decompressor
+// over the snapshot reader).  The payload goes in as two writes split at a
+// symbolic point and comes back through reads of a symbolic size until EOF
+// (what a state machine using io.ReadAll / io.Copy does): byte-identical, and
+// the size recorded for the file is the size of the file.
+//vcheck: reach=plain,snappy,short-last-read,done workers=16 bounds=compressed-stream:|payload|11|concrete|bytes|(Snappy|matching|on|symbolic|bytes|forks|per|hash|probe),|write|split|0..11|and|read|buffer|size|1..5|symbolic
+func VHarness_C14_CompressedStream() {
+	payload := []byte{7, 7, 7, 7, 1, 2, 3, 7, 7, 7, 9}
+	n := len(payload)
+	ct := pb.NoCompression
+	if vBool("snappy") {
+		ct = pb.Snappy
+		vReach("snappy")
+	} else {
+		vReach("plain")
+	}
+	fs := &vFS{files: map[string][]byte{}}
+	w, err := NewSnapshotWriter("ss", ct, fs)
+	vAssert(err == nil, "writer-ok")
+	cw := dio.NewCountedWriter(w)
+	sw := dio.NewCompressor(ct, cw)
+	k := vChoose("split", n+1)
+	m1, err := sw.Write(payload[:k])
+	vAssert(err == nil && m1 == k, "first-write-ok")
+	m2, err := sw.Write(payload[k:])
+	vAssert(err == nil && m2 == n-k, "second-write-ok")
+	vAssert(sw.Close() == nil, "close-ok")
+	file := fs.files["ss"]
+	vAssert(uint64(len(file)) == w.GetPayloadSize(cw.BytesWritten())+HeaderSize, "recorded-file-size-is-the-file-size")
+	r, h, err := NewSnapshotReader("ss", fs)
+	vAssert(err == nil, "open-ok")
+	vAssert(h.CompressionType == ct, "header-compression-type")
+	cr := dio.NewDecompressor(ct, r)
+	bs := 1 + vChoose("readsize", 5)
+	var got []byte
+	for i := 0; i < n+2; i++ {
+		buf := make([]byte, bs)
+		c, err := cr.Read(buf)
+		vAssert(c >= 0 && c <= bs, "read-count-in-range")
+		got = append(got, buf[:c]...)
+		if c > 0 && c < bs {
+			vReach("short-last-read")
+		}
+		if err != nil {
+			vAssert(err == io.EOF, "only-eof")
+			break
+		}
+	}
+	vAssert(len(got) == n, "whole-payload-read-back")
+	if len(got) == n {
+		for i := range payload {
+			vAssert(got[i] == payload[i], "bytes-identical")
+		}
+	}
+	vAssert(cr.Close() == nil, "reader-close-validates")
 	vReach("done")
 }
